@@ -443,6 +443,21 @@ def wrappers_rule(ctx, prog, an, rid="R2.5", rid_err="R2.2", versions=(5, 7, 9, 
                 good = bool(cp is not None and same and vv == {ver})
                 why = "PartialParse{version=%s, remaining=copy(%s)}; parser input=%s" % (vv, canon(src)[:120] if src else "?", canon(peel(parse_call[3][0]))[:120] if parse_call else "?")
         ctx.ob(rid_err, path, "partial-carries-original-bytes", good, why, site=site(b.span))
+        # the wrapper refuses exactly what the packet parser refuses: every error it returns is that parser's error
+        # (a size / sanity gate in front of the parser turns packets the parser decodes into errors)
+        if errv[0] == "agg" and errv[2] == "Partial" and parse_call is not None:
+            pp = peel(errv[3][0])
+            f = dict(zip(pp[4], pp[3])) if pp[0] == "agg" else {}
+            ev = peel(f.get("error", ("opaque", "")))
+            mem = ev[1] if ev[0] == "phi" else [ev]
+            pk = (parse_call[1], parse_call[2].id if parse_call[2] is not None else None)
+
+            def from_parser(x):
+                return bool(find(x, lambda n: n[0] == "err" and peel(n[1])[0] == "call" and (peel(n[1])[1], peel(n[1])[2].id if peel(n[1])[2] is not None else None) == pk))
+            foreign = [canon(peel(x))[:100] for x in mem if not from_parser(x)]
+            ctx.ob(rid_err, path, "errors-are-the-parser's", not foreign,
+                   ("the wrapper also returns an error that is not the packet parser's (%s): packets the parser would decode are refused" % foreign[0]) if foreign
+                   else "the only error the wrapper returns is built from the error of %s" % (parse_call[2].path if parse_call[2] is not None else "?"), site=site(b.span))
     ctx.floor(rid, "wrappers", "version wrappers", n, len(versions))
 
 
